@@ -1,6 +1,7 @@
 package main
 
 import (
+	"encoding/json"
 	"fmt"
 	"os"
 	"path/filepath"
@@ -27,9 +28,20 @@ func writeReplay(w *World, repo, path, prop, id, reason string, o *Obl) string {
 		smtPath := strings.TrimSuffix(path, ".json") + ".smt2"
 		os.WriteFile(smtPath, []byte(o.smt(true)), 0o644)
 		rec["smt_file"] = smtPath
-		if o.Status == "sat" && len(o.Model) > 0 {
-			if ok, testPath, out := tryReplay(w, repo, path, o); testPath != "" {
+		if o.Status == "sat" {
+			ok, testPath, out := tryReplay(w, repo, path, o)
+			if testPath == "" && out != "" {
+				rec["replay_note"] = out
+			}
+			if testPath != "" {
 				rec["replay_test"] = testPath
+				if mb, err := os.ReadFile(testPath + ".meta"); err == nil {
+					var mm map[string]string
+					if json.Unmarshal(mb, &mm) == nil {
+						rec["replay_pkg_dir"] = mm["replay_pkg_dir"]
+					}
+					os.Remove(testPath + ".meta")
+				}
 				rec["replay_output"] = out
 				rec["replay_confirms_failure"] = ok
 				if ok {
@@ -69,4 +81,11 @@ func runReplayFile(repo, path string) int {
 // tryReplay is filled in by replaygen.go
 var tryReplay = func(w *World, repo, path string, o *Obl) (bool, string, string) { return false, "", "" }
 
-func runReplayTest(repo, pkgDir, testPath string) (bool, string) { return false, "replay not available" }
+var runReplayTestImpl func(repo, pkgDir, testPath string) (bool, string)
+
+func runReplayTest(repo, pkgDir, testPath string) (bool, string) {
+	if runReplayTestImpl == nil {
+		return false, "replay not available"
+	}
+	return runReplayTestImpl(repo, pkgDir, testPath)
+}
